@@ -156,6 +156,9 @@ def abs_apply(a, st):
         uniq = _keys_disjoint(a, b)
         return a.clone(elems=e, n=a.n + b.n,
                        items=a.items and b.items and uniq, keys=a.keys and b.keys and uniq)
+    if op == 'userstage':
+        # a user-written pass-through stage without keys / items support
+        return a.clone(items=False, keys=False)
     if op == 'keyzip':
         # key_zip with a partner that has the same keys in another order
         if not (a.keys and a.indexable and a.sized and a.n and a.elems is not None):
@@ -356,7 +359,7 @@ def gen_par_stage(rng, *, kinds=('prefetch', 'parmap'), backends=('t',),
 
 
 def gen_desc(rng, *, max_n=8, min_n=0, max_up=3, max_down=2, par_kw=None,
-             simple=False, source_kind=None, falsy_p=0.0, batched_p=0.0):
+             simple=False, source_kind=None, falsy_p=0.0, batched_p=0.0, user_stage_p=0.0):
     """Generate a valid description: source, 'u0' map, upstream stages, one
     parallel stage, downstream stages."""
     par_kw = par_kw or {}
@@ -394,6 +397,12 @@ def gen_desc(rng, *, max_n=8, min_n=0, max_up=3, max_down=2, par_kw=None,
                   'val': rng.choice(['none', 'none', 'zero', 'empty', 'emptylist',
                                      'emptydict', 'false', 'excobj', 'stopiterobj',
                                      'filterobj'])}
+            b = abs_apply(a, st)
+            if b is not None:
+                desc['stages'].append(st)
+                a = b
+        if user_stage_p and rng.random() < user_stage_p:
+            st = {'op': 'userstage'}
             b = abs_apply(a, st)
             if b is not None:
                 desc['stages'].append(st)
